@@ -32,7 +32,6 @@ import (
 	"errors"
 	"fmt"
 	"io"
-	"os"
 	"strings"
 	"path/filepath"
 	"sync"
@@ -448,9 +447,6 @@ func c44ErrClass(err error) string {
 		return "overspend"
 	case strings.Contains(m, "should have been authorized by"):
 		return "wrong-authorizer"
-	}
-	if os.Getenv("VERIF_C44_DEBUG") != "" {
-		fmt.Printf("OTHER %s\n", err.Error())
 	}
 	return "other"
 }
@@ -901,16 +897,10 @@ func c44RunHistory(c *kit.Ctx, i int, scratch string) {
 	}
 	defer w.close()
 	r := c.Rand(4402, uint64(i))
-	nsteps := r.Range(c.N(60, 120), c.N(220, 500))
+	nsteps := r.Range(c.N(60, 100), c.N(220, 400))
 	var ops []c44Op
 	var fnd *c44Finding
 	labels := map[string]bool{}
-	var dbg []string
-	defer func() {
-		if len(dbg) > 0 {
-			fmt.Println(strings.Join(dbg, "\n"))
-		}
-	}()
 	maxFeePerByte := uint64(0)
 	panicked := c.Guard("pool", map[string]any{"case": i, "cfg": fmt.Sprintf("%+v", cfg)}, func() {
 		for s := 0; s < nsteps && fnd == nil; s++ {
@@ -947,13 +937,6 @@ func c44RunHistory(c *kit.Ctx, i int, scratch string) {
 				}
 				P := w.pool.PendingTxGroups()
 				n := c44Count(P)
-				if os.Getenv("VERIF_C44_DEBUG") != "" {
-					ids := ""
-					for _, g := range P {
-						ids += g[0].ID().String()[:4] + ","
-					}
-					dbg = append(dbg, fmt.Sprintf("STATE %d.%d err=%v rnd=%d P=%s", i, len(ops)-1, w.lastRememberErr, w.l.Latest(), ids))
-				}
 				if o.Kind == "submit" {
 					acc := "rej:" + "none"
 					if w.lastRememberErr == nil {
@@ -996,13 +979,6 @@ func c44RunHistory(c *kit.Ctx, i int, scratch string) {
 		}
 		c.Sample(map[string]any{"case": i, "config": fmt.Sprintf("%+v", cfg), "steps": len(ops), "final_round": uint64(w.l.Latest()),
 			"final_pending": c44Count(w.pool.PendingTxGroups()), "op_outcomes_seen": len(ls)})
-	}
-	if d := os.Getenv("VERIF_C44_DEBUG"); d == fmt.Sprint(i) || d == "all" {
-		var sb strings.Builder
-		for k, o := range ops {
-			fmt.Fprintf(&sb, "OP %d.%d %s\n", i, k, o)
-		}
-		fmt.Print(sb.String())
 	}
 	c44TraceMu.Lock()
 	c44Trace[i] = kit.Fingerprint(c44Strs(ops), kit.FPOptions{})
@@ -1054,7 +1030,7 @@ func TestVerifC44Sequential(t *testing.T) {
 	c.Assume("two thirds of the histories use a copy of the current consensus parameters with MaxTxnBytesPerBlock reduced to 1.3-7 kB so that several pending blocks and the fee escalation are reachable with dozens of transactions; signatures are real but not verified by Remember (caller's precondition)")
 	c44RegisterProtos()
 	scratch := c.Scratch("seq")
-	n := c.N(90, 2400)
+	n := c.N(90, 700)
 	workers := 12
 	var wg sync.WaitGroup
 	var nextCase atomic.Int64
@@ -1074,11 +1050,12 @@ func TestVerifC44Sequential(t *testing.T) {
 	}
 	wg.Wait()
 	c.Count("replays_repeated_after_db_lock_error", int(c44ReplayRetries.Load()))
-	if os.Getenv("VERIF_C44_DEBUG") != "" {
-		for i := 0; i < n; i++ {
-			fmt.Printf("TRACE %d %v\n", i, c44Trace[i])
-		}
+	// fingerprint of all generated histories in case order: equal across runs with the same seed
+	var all []any
+	for i := 0; i < n; i++ {
+		all = append(all, c44Trace[i])
 	}
+	c.Extra("histories_fingerprint", kit.Fingerprint(all, kit.FPOptions{}))
 	c.Require("histories", int64(n))
 	c.Require("steps", 3000)
 	c.Require("remember_accepted", 500)
@@ -1131,7 +1108,7 @@ func TestVerifC44Concurrent(t *testing.T) {
 	c.Assume("the size bound under concurrent Remember calls is outside the property's quantifier (check-then-insert is not atomic): reported, not alarmed")
 	c44RegisterProtos()
 	scratch := c.Scratch("conc")
-	ncases := c.N(6, 40)
+	ncases := c.N(4, 30)
 	for i := 0; i < ncases && c.Violations() == 0; i++ {
 		cfg := c44MakeConfig(c, 100000+i)
 		cfg.PoolSize = []int{6, 15, 40}[i%3]
@@ -1142,16 +1119,16 @@ func TestVerifC44Concurrent(t *testing.T) {
 			return
 		}
 		w.l.RegisterBlockListeners([]ledgercore.BlockListener{w.pool})
-		var wg sync.WaitGroup
+		var wg, subWg sync.WaitGroup
 		var mu sync.Mutex // protects the world's generator state (note counter, history) and w.committed
 		stop := make(chan struct{})
-		nsub := c.N(150, 400)
+		nsub := c.N(120, 300)
 		var overshootSeen atomic.Int64
 		c.Guard("pool-concurrent", map[string]any{"case": i}, func() {
 			for g := 0; g < 5; g++ {
-				wg.Add(1)
+				subWg.Add(1)
 				go func(g int) {
-					defer wg.Done()
+					defer subWg.Done()
 					r := c.Rand(4410, uint64(i), uint64(g))
 					for k := 0; k < nsub; k++ {
 						mu.Lock()
@@ -1258,15 +1235,7 @@ func TestVerifC44Concurrent(t *testing.T) {
 			}()
 			// join submitters first, then stop the others
 			subDone := make(chan struct{})
-			go func() {
-				for {
-					if c.Counter("remember_accepted")+c.Counter("remember_rejected") >= int64((i+1)*5*nsub) {
-						close(subDone)
-						return
-					}
-					time.Sleep(5 * time.Millisecond)
-				}
-			}()
+			go func() { subWg.Wait(); close(subDone) }()
 			select {
 			case <-subDone:
 			case <-time.After(20 * time.Minute):
